@@ -96,6 +96,14 @@ CHECKS["C08"] = (
     "DESIGN.md section 4, C08",
 )
 
+CHECKS["C06"] = (
+    "E1-explicit-state",
+    "explicit-state BFS over container contents reachable by element helpers of the real class, each transition compared with the plain list/dict/set operation",
+    "For every collection attribute kind (List[int], List[str], Dict[str,int], Set[int], Set[str], List[Leaf], Dict[str,Leaf], List[Keyed], Dict[str,Keyed], KeyedList, KeyedSet), with missing and defaulted containers and with item preparers, all container contents up to the length bound (universes with falsy members and repeated equal elements) are reached by in-place element operations; from every content every element helper x addressing mode (_index in [-len-1,len+1] x _insert, _by_index default/True/False, by key, by value, keywords building/updating spec elements, bare key promotion) is executed copy-on-write and in place on the real class and compared with the corresponding plain Python container operation on a copy of the previous content (content, order, exception type for missing targets).",
+    "Reference = ref_apply in props/c06.py (plain container ops); length bound 2-3 (quick) / 3-4 (thorough); key addressing on a plain List[Keyed] not exercised.",
+    "DESIGN.md section 4, C06",
+)
+
 ENGINES = [
     {"name": "E1-explicit-state", "path": "mc/common.py, props/*.py (explore)", "serves_properties": [],
      "kind_free_text": "breadth-first explicit-state search over the real transition function; a state is the shortest operation history that reaches it, rebuilt by replay; canonical-form deduplication; lock-step reference model"},
